@@ -194,7 +194,7 @@ pub fn run(ctx: &Ctx) -> ! {
     let mut rep = Report::new(
         ctx,
         "model_checking",
-        "(i) every sequence of <= k tokens of the 16-token wire alphabet after a valid header, partitioned by the strict reference decoder R1 into well-formed / not; every well-formed one is executed on IppParser::parse and parse_parts and compared with R1's reading (groups in wire order, attribute in the most recent group, scalar vs ordered set, collections as name->values maps, lossy text); (ii) wire trees generated from the RFC 8010 grammar with free group order (repeated/empty groups, operation not first), mixed sets, multi-valued members, sets of collections, nesting, every tag 0x10-0x4a at boundary lengths, invalid UTF-8 in text and names, encoded by the reference encoder; (iii) every byte of {0x00, 0x0b-0x0f, 0x4b-0xff} substituted at every tag position of every corpus message must be rejected; (iv) every periodic family header.p.u^n.v^n.end (|p|<=1, |u|<=2, |v|<=1) at n = 40, 130, 300 (1000) repetitions that R1 accepts (nesting <= 128) - hundreds of groups, attributes, members, set elements before the tokens under test; (v) non-initial states: for every word u of 1-2 tokens and n = 130, 300 (40..1000), header.u^n followed by EVERY token sequence of <= 3 tokens as continuation, executed whenever R1 accepts the whole message. states = distinct accepted wire messages; transitions = tokens consumed by the reference decoder; non-trivial = accepted message with at least one attribute",
+        "(i) every sequence of <= k tokens of the 16-token wire alphabet after a valid header, partitioned by the strict reference decoder R1 into well-formed / not; every well-formed one is executed on IppParser::parse and parse_parts and compared with R1's reading (groups in wire order, attribute in the most recent group, scalar vs ordered set, collections as name->values maps, lossy text); (ii) wire trees generated from the RFC 8010 grammar with free group order (repeated/empty groups, operation not first), mixed sets, multi-valued members, sets of collections, nesting, every tag 0x10-0x4a at boundary lengths, invalid UTF-8 in text and names, encoded by the reference encoder; (iii) every byte of {0x00, 0x0b-0x0f, 0x4b-0xff} substituted at every tag position of every corpus message must be rejected; (iv) every periodic family header.p.u^n.v^n.end (|p|<=1, |u|<=2, |v|<=1) at n = 40, 130, 300 (1000) repetitions that R1 accepts (nesting <= 128) - hundreds of groups, attributes, members, set elements before the tokens under test; (v) non-initial states: for every word u of 1-2 tokens and n = 130, 300 (40..1000), header.u^n followed by EVERY token sequence of <= 3 tokens as continuation, executed whenever R1 accepts the whole message; (vi) tricky texts and names: 70 .. 33 000 octets of 2-/3-/4-octet characters at every alignment, whole and cut inside a character, as attribute name, text value, language of a textWithLanguage and member name; pairs of distinct names that collide under a normalisation side by side (group / collection, incl. the empty member name); look-alikes of the specially treated operation attribute names. states = distinct accepted wire messages; transitions = tokens consumed by the reference decoder; non-trivial = accepted message with at least one attribute",
     );
     rep.assume("reference decoder R1 is the independent reading of RFC 8010");
     rep.assume("bytes 0x06-0x0a at a tag position (IANA-assigned group tags this library does not know) are outside the rejection rule: either answer is accepted");
